@@ -256,6 +256,9 @@ def _map_to_station_ids(
                     for search_geoid in search_geoids
                     if sim.s_search.get(search_geoid)
                     for station_id in sim.s_search[search_geoid]
+                    # a region finer than the search resolution only covers the stations inside it
+                    if res <= sim.sim_h3_search_resolution
+                    or h3.h3_to_parent(sim.stations[station_id].geoid, res) == k
                 )
 
                 # all of these station ids should get entries managers the provided geoid
